@@ -96,7 +96,10 @@ private:
       CRAB_VERIF_TICK();
       for (unsigned i = 0, e = order.size(); i < e; ++i) {
         auto const &n = order[i];
-        auto in = (i == 0 ? m_analysis.entry() : killgen_domain_t::bottom());
+        // the initial dataflow facts belong to the entry block (which
+        // need not be the first one if it is inside a cycle)
+        auto in = (n == m_cfg.entry() ? m_analysis.entry()
+                                      : killgen_domain_t::bottom());
         for (auto const &p : m_cfg.prev_nodes(n))
           in = m_analysis.merge(in, m_out_map[p]);
         auto old_out = m_out_map[n];
@@ -123,7 +126,12 @@ private:
       CRAB_VERIF_TICK();
       for (unsigned i = 0, e = order.size(); i < e; ++i) {
         auto const &n = order[i];
-        auto out = (i == 0 ? m_analysis.entry() : killgen_domain_t::bottom());
+        // the initial dataflow facts belong to the exit block: the first
+        // block of the order can be any block without successors. Without
+        // a declared exit we keep seeding the first block.
+        auto out = ((m_cfg.has_exit() ? (n == m_cfg.exit()) : (i == 0))
+                        ? m_analysis.entry()
+                        : killgen_domain_t::bottom());
         for (auto const &p : m_cfg.next_nodes(n))
           out = m_analysis.merge(out, m_in_map[p]);
         auto old_in = m_in_map[n];
